@@ -655,8 +655,8 @@ theorem foldl_lo_range (l : Nat) (f : Nat → List Nat) :
     simp
 
 /-- T-C14.1 (kthlist, bipartite graph) -/
-theorem roundtrip_kth_bip {G : BipG} (h : BipG.Inv G) :
-    ∃ G', readBipKth (writeKthBip G) = .ok G' ∧ BipG.Same G G' := by
+theorem roundtrip_kth_bip (k : Nat) {G : BipG} (h : BipG.Inv G) :
+    ∃ G', readBipKth (writeKthBip k G) = .ok G' ∧ BipG.Same G G' := by
   have hfirst : ((bipLists G).map (·.1)) = (List.range G.l).map (· + 1) := by
     simp [bipLists, Function.comp_def]
   have hrange : ∀ p ∈ bipLists G, (1 ≤ p.1 ∧ p.1 ≤ G.l) ∧ ∀ x ∈ p.2, G.l + 1 ≤ x ∧ x ≤ G.l + G.r := by
@@ -688,7 +688,7 @@ theorem roundtrip_kth_bip {G : BipG} (h : BipG.Inv G) :
   have hr' : G'.r = G.r := hr
   refine ⟨G', ?_, BipG.same_of_inv h hi hl hr ?_⟩
   · have hn : ¬ (((G.l + G.r : Nat) : Int) < 0) := by omega
-    simp only [readBipKth, writeKthBip, kthRows, kthHeader, hn, if_false, Int.toNat_natCast, hbody]
+    simp only [readBipKth, writeKthBip, kthRows, kthHeader_comments, kthHeader, hn, if_false, Int.toNat_natCast, hbody]
     have e1 : ((G.l + 1 : Nat) : Int) - 1 = (G.l : Int) := by omega
     have e2 : ((G.l + G.r : Nat) : Int) - ((G.l + 1 : Nat) : Int) + 1 = (G.r : Int) := by omega
     have hneg : ¬ ((G.l : Int) < 0 ∨ (G.r : Int) < 0) := by omega
